@@ -307,41 +307,17 @@ func c17Mirror(c *Ctx) {
 
 	// constScrape: interface gauges come from the right reads
 	if cs := c.needMethod("R-C17-3", "internal/corerad", "Metrics", "constScrape"); cs != nil {
-		for _, ci := range an.CallsIn(cs) {
-			if !an.CallIs(ci.Common(), PkgCorerad, "", "collectMetrics") {
-				continue
+		ifiField := func(e *an.Expr, f string) bool { return e != nil && e.IsField(f) && e.Args[0].Op == an.OpElem }
+		stateRead := func(e *an.Expr, m string) bool {
+			if e == nil {
+				return false
 			}
-			flds := raHeader(c.XO.Of(ci.Common().Args[1]))
-			if flds == nil {
-				c.R.Undecided("R-C17-3", c.fname(cs)+":context", c.fname(cs), c.pos(ci.Pos()), "metricsContext not a literal")
-				continue
-			}
-			ifiField := func(e *an.Expr, f string) bool { return e != nil && e.IsField(f) && e.Args[0].Op == an.OpElem }
-			stateRead := func(e *an.Expr, m string) bool {
-				if e == nil {
-					return false
-				}
-				b, idx := stripExtract(e)
-				return idx == 0 && exprCallIs(b, PkgSystem, "State", m) && b.Args[len(b.Args)-1].IsField("Name")
-			}
-			checks := map[string]bool{
-				"Interface":         ifiField(flds["Interface"], "Name"),
-				"Advertising":       ifiField(flds["Advertising"], "Advertise"),
-				"Monitoring":        ifiField(flds["Monitoring"], "Monitor"),
-				"Autoconfiguration": stateRead(flds["Autoconfiguration"], "IPv6Autoconf"),
-				"Forwarding":        stateRead(flds["Forwarding"], "IPv6Forwarding"),
-			}
-			var keys []string
-			for k := range checks {
-				keys = append(keys, k)
-			}
-			sort.Strings(keys)
-			for _, k := range keys {
-				c.R.Check(checks[k], "R-C17-3", c.fname(cs)+":context."+k, c.fname(cs), c.pos(ci.Pos()), fmt.Sprintf("%s ⇐ %v", k, flds[k]),
-					"Interface⇐ifi.Name, Advertising⇐ifi.Advertise, Monitoring⇐ifi.Monitor, Autoconfiguration⇐State.IPv6Autoconf(ifi.Name), Forwarding⇐State.IPv6Forwarding(ifi.Name)",
-					"interface gauges swapped or fed from the wrong source")
-			}
+			b, idx := stripExtract(e)
+			return idx == 0 && exprCallIs(b, PkgSystem, "State", m) && b.Args[len(b.Args)-1].IsField("Name")
 		}
+		ctxOK := map[string]bool{}
+		ctxFact := map[string]string{}
+		var ctxPos string
 		// per iteration (path-sensitive): the RA and misconfigurations handed to collectMetrics are those of THIS
 		// interface's RouterAdvertisement call when it advertises, and nothing (nil) when it does not
 		nIter := 0
@@ -360,6 +336,21 @@ func c17Mirror(c *Ctx) {
 			flds := raHeader(p.Of(calls[0].Common().Args[1]))
 			ok := flds != nil && tested
 			fact := "metricsContext not a literal"
+			ctxPos = c.pos(calls[0].Pos())
+			if flds != nil {
+				for k, v := range map[string]bool{
+					"Interface":         ifiField(flds["Interface"], "Name"),
+					"Advertising":       ifiField(flds["Advertising"], "Advertise"),
+					"Monitoring":        ifiField(flds["Monitoring"], "Monitor"),
+					"Autoconfiguration": stateRead(flds["Autoconfiguration"], "IPv6Autoconf"),
+					"Forwarding":        stateRead(flds["Forwarding"], "IPv6Forwarding"),
+				} {
+					if prev, seen := ctxOK[k]; !seen || (prev && !v) {
+						ctxOK[k] = v
+						ctxFact[k] = fmt.Sprintf("%s ⇐ %v", k, flds[k])
+					}
+				}
+			}
 			if flds != nil {
 				ra, ms := flds["Advertisement"], flds["Misconfigurations"]
 				fact = fmt.Sprintf("Advertisement=%v Misconfigurations=%v", ra, ms)
@@ -374,6 +365,16 @@ func c17Mirror(c *Ctx) {
 			c.R.Check(ok, "R-C17-3", fmt.Sprintf("%s:per-interface-ra@advertise=%v", c.fname(cs), adv), c.fname(cs), c.pos(calls[0].Pos()), fact,
 				"an advertising interface reports the RA it would send now; a non-advertising interface reports no RA (nothing carried over from another interface)",
 				"samples of one interface's RA are exported under another interface")
+		}
+		for _, k := range []string{"Advertising", "Autoconfiguration", "Forwarding", "Interface", "Monitoring"} {
+			v, seen := ctxOK[k]
+			fact := ctxFact[k]
+			if !seen {
+				fact = k + " not found in the context handed to collectMetrics"
+			}
+			c.R.Check(seen && v, "R-C17-3", c.fname(cs)+":context."+k, c.fname(cs), ctxPos, fact,
+				"Interface⇐ifi.Name, Advertising⇐ifi.Advertise, Monitoring⇐ifi.Monitor, Autoconfiguration⇐State.IPv6Autoconf(ifi.Name), Forwarding⇐State.IPv6Forwarding(ifi.Name)",
+				"interface gauges swapped or fed from the wrong source")
 		}
 		c.R.Check(nIter >= 2, "R-C17-3", c.fname(cs)+":iterations", c.fname(cs), c.pos(cs.Pos()), fmt.Sprintf("%d iteration path(s)", nIter), ">= 2", "anchor-missing")
 		// State errors become ScrapeErrors
